@@ -24,8 +24,17 @@ func init() {
 // pay1 is the payload of the crash/fault part: one version byte repeated.
 func pay1(v byte, n int) []byte { return bytes.Repeat([]byte{v}, n) }
 
-// c13Child: `ac root dir name vbyte len` performs one bracketed
-// DirFs.AtomicCreate; `conc <json spec>` runs a concurrency scenario.
+// c13PreName / c13PreData: target and payload of the complete calls a child
+// performs before the call under test.
+const c13PreName = "g"
+
+func c13PreData(j int) []byte { return pay1(5, 7+j) }
+
+// c13Child: `ac root dir name vbyte len [pre]` performs one bracketed
+// DirFs.AtomicCreate after `pre` complete calls for another name (and reports
+// its pid in a `PID n` marker); `aclimit root dir name vbyte len limit [pre]`
+// the same under a file-size limit; `conc <json spec>` runs a concurrency
+// scenario.
 func c13Child(args []string) int {
 	if len(args) >= 1 && args[0] == "conc" {
 		return c13Conc(args[1:])
@@ -35,7 +44,7 @@ func c13Child(args []string) int {
 		// the file-size limit makes the kernel cut a write short (the rest fails with EFBIG),
 		// the way a full disk or a quota does
 		limit, _ = strconv.ParseInt(args[6], 10, 64)
-		args[0] = "ac"
+		args = append([]string{"ac"}, append(append([]string{}, args[1:6]...), args[7:]...)...)
 	}
 	if len(args) < 6 || args[0] != "ac" {
 		mark("usage")
@@ -44,9 +53,29 @@ func c13Child(args []string) int {
 	root, dir, name := args[1], args[2], args[3]
 	v, _ := strconv.Atoi(args[4])
 	n, _ := strconv.Atoi(args[5])
+	// optional: number of complete AtomicCreate calls (of another name) this
+	// process performs before the call under test, so that the call under test
+	// is the (pre+1)-th of its process
+	pre := 0
+	if len(args) >= 7 {
+		pre, _ = strconv.Atoi(args[6])
+	}
 	data := pay1(byte(v), n)
 	fs := filesys.NewDirFs(root)
 	res := "ok"
+	mark("PID %d", os.Getpid())
+	for j := 0; j < pre; j++ {
+		pres := "ok"
+		func() {
+			defer func() {
+				if e := recover(); e != nil {
+					pres = "panic " + fmt.Sprint(e)
+				}
+			}()
+			fs.AtomicCreate(dir, c13PreName, c13PreData(j))
+		}()
+		mark("PRE %d %s", j, pres)
+	}
 	if limit >= 0 {
 		signal.Ignore(syscall.SIGXFSZ)
 		lim := syscall.Rlimit{Cur: uint64(limit), Max: uint64(limit)}
